@@ -107,14 +107,20 @@ def _(u):
     _reset(u, False)
 
 
+def _whole_state(u, B, N):
+    """the state TensorDict with arbitrary bookkeeping fields (the reward depends on the coordinates and the actions only)"""
+    return u.td(B, locs=((B, N + 1, 2), "f"), current_node=((B, 1), "i"), to_deliver=((B, N + 1), "b"),
+                available=((B, N + 1), "b"), i=((B, 1), "i"), action_mask=((B, N + 1), "b"))
+
+
 @unit("pdp.reward", file=F, func="PDPEnv._get_reward", props=("C03",))
 def _(u):
-    depot_tour_reward_unit(u, F, "PDPEnv._get_reward", "PDPEnv", static=True)
+    depot_tour_reward_unit(u, F, "PDPEnv._get_reward", "PDPEnv", static=True, make_td=_whole_state)
 
 
 @unit("pdp.rowlocal.reward", file=F, func="PDPEnv._get_reward", props=("C04", "C14"))
 def _(u):
-    depot_tour_reward_rowlocal(u, F, "PDPEnv._get_reward", "PDPEnv", static=True)
+    depot_tour_reward_rowlocal(u, F, "PDPEnv._get_reward", "PDPEnv", static=True, make_td=_whole_state)
 
 
 @unit("pdp.rowlocal.step", file=F, func="PDPEnv._step", props=("C04", "C14"))
